@@ -146,6 +146,18 @@ class RouterAnalysis:
                     self.add('RT.1', same, f'{short}: recursive call keeps the argument signature', n.shortloc(),
                              '' if same else f'inside {f.name} the recursion resolves to {n.callee}: the pack is re-deduced from lvalues, the leaf reinterprets Subject{pack} as Subject{(n.targs or ["?"])[0]} (observers receive garbage / the wrong type)',
                              key='RT.1|recursion')
+                    # the same arguments go to every child: they may be forwarded only into reference parameters
+                    params = n.params or []
+                    for i, a in enumerate(n.ns('args')):
+                        if a is None or i == 0: continue
+                        pt = params[i] if i < len(params) else ''
+                        byval_class = bool(pt) and not pt.endswith('&') and not pt.endswith('*') and pt not in ('int', 'unsigned int', 'long', 'unsigned long', 'bool', 'float', 'double', 'char', 'short', 'unsigned char', 'long long', 'unsigned long long', 'unsigned short')
+                        if not byval_class: continue
+                        consumed = a.cat == 'x' or (a.k == 'construct' and a.move) or (a.k == 'call' and (a.calleeq or '') in ('std::move', 'std::forward'))
+                        if a.k == 'construct' and a.ns('args') and a.ns('args')[0] is not None: consumed = consumed or a.ns('args')[0].cat == 'x'
+                        self.add('RT.2', not consumed, f'{short}: argument {i} of the recursive call is not consumed by the first child', a.shortloc(),
+                                 '' if not consumed else f'Node::notify takes `{pt[:40]}` by value and the recursive call hands it `{a.text()[:50]}`, an rvalue: the parameter of the first child visited under a regex level is move-constructed from the caller\'s value, every later child (and key) receives a moved-from value',
+                                 key='RT.2|recursion-consume')
                 if n.k == 'cast' and n.castkind == 'CXXReinterpretCastExpr':
                     to = _strip_ptr(n.to)
                     ok = to == want_subject
@@ -368,17 +380,20 @@ class RouterAnalysis:
         F = self.facts
         lk = F.fn(f'{NODE}::lookupNode')
         if lk is None: self.rep.anchor_missing(f'{NODE}::lookupNode', 'not found'); return
-        ins = [n for n in lk.nodes() if n.k == 'call' and n.n('object') is not None and n.n('object').is_field('m_children') and n.callee_base() in ('insert', 'emplace', 'try_emplace', 'operator[]')]
+        ins = [n for n in lk.nodes() if n.k == 'call' and n.n('object') is not None and n.n('object').is_field('m_children') and n.callee_base() in ('insert', 'emplace', 'try_emplace', 'operator[]', 'emplace_hint')]
         import guards as _g
         verdict = None; why = 'child insertion not recognised'
+        self._lower_bound_idiom(F, lk)
         if len(ins) == 1:
             call = ins[0]
             args = [a for a in call.ns('args') if a is not None]
             if call.ck == 'op' and 'mclass' in call.d: args = args[1:]
+            if call.callee_base() == 'emplace_hint' and len(args) == 3: args = args[1:]; call_base_ = 'emplace'
+            else: call_base_ = call.callee_base()
             key_e = name_e = None
             nodec = [x for x in call.walk() if x.k == 'construct' and x.d.get('class') == NODE and not x.copy and not x.move]
             pairs = [x for x in call.walk() if x.k in ('initlist', 'construct') and len([a for a in x.ns('args') if a is not None]) == 2 and x.id != call.id and (x.k == 'initlist' or 'pair' in (x.d.get('class') or ''))]
-            if call.callee_base() in ('try_emplace', 'emplace') and len(args) == 2:
+            if call_base_ in ('try_emplace', 'emplace') and len(args) == 2:
                 key_e = args[0]; name_e = args[1]
                 if nodec and nodec[0].ns('args'): name_e = [a for a in nodec[0].ns('args') if a is not None][0]
             elif pairs and nodec and nodec[0].ns('args'):
@@ -430,6 +445,65 @@ class RouterAnalysis:
                 eb = [n for n in g.nodes() if n.k == 'call' and n.callee_base() in ('emplace_back', 'push_back') and n.n('object') is not None and n.n('object').is_field('m_levels')]
                 self.add('RT.5', len(eb) == 1, f'RoutingKeyBuilder::{name}: appends one level at the back', g.shortloc(), '' if len(eb) == 1 else 'levels are not appended in call order', key=f'RT.5|builder-{name}')
 
+    def _lower_bound_idiom(self, F, lk):
+        """find-or-insert written with lower_bound: `it = m_children.lower_bound(k)` guarantees !(it->first < k); the child is missing exactly
+        when it == end() or k < it->first.  lookupNode is evaluated on the three rows; a row in which the child is missing and nothing is
+        inserted descends into the next greater sibling."""
+        if not any(n.k == 'call' and n.callee_base() == 'lower_bound' and n.n('object') is not None and n.n('object').is_field('m_children') for n in lk.nodes()): return
+        lb_vars = set()
+        for n in lk.nodes():
+            if n.k == 'decl':
+                for v in n.vars:
+                    if v.get('init') and any(y.k == 'call' and y.callee_base() == 'lower_bound' for y in Node(lk.tu, v['init']).walk()): lb_vars.add(v['decl'])
+        class D(RouterDomain):
+            def call_result(self, ex, n, q, base, on, ov, vals, st, fr):
+                if on == 'm_children' and base == 'lower_bound': return Sym('children.lb')
+                if on == 'm_children' and base == 'key_comp': return Sym('children.comp')
+                if base in ('operator==', 'operator!='):
+                    o2 = [ex.read(x.loc, st, n) if isinstance(x, Ref) else x for x in ([ov] + list(vals)) if x is not None]
+                    if len(o2) == 2 and all(isinstance(x, Sym) for x in o2) and {x.name for x in o2} == {'children.lb', 'm_children.end'}:
+                        v = self.atom('lb_end')
+                        if v is not None: return v if base == 'operator==' else (not v)
+                if base == 'operator()' or (n.ck == 'op' and n.op == '()'):
+                    ops_ = [ex.read(x.loc, st, n) if isinstance(x, Ref) else x for x in ([ov] + list(vals)) if x is not None]
+                    if any(isinstance(x, Sym) and x.name == 'children.comp' for x in ops_) or 'less' in q:
+                        rest = [x for x in ops_ if not (isinstance(x, Sym) and x.name == 'children.comp')]
+                        is_lbkey = lambda x: isinstance(x, Sym) and x.name.startswith('children.lb') and x.name != 'children.lb'
+                        if len(rest) == 2 and is_lbkey(rest[0]) and not is_lbkey(rest[1]): return False          # comp(it->first, k): excluded by lower_bound
+                        if len(rest) == 2 and is_lbkey(rest[1]) and not is_lbkey(rest[0]): return self._b('lb_greater', n)
+                return super().call_result(ex, n, q, base, on, ov, vals, st, fr)
+            def opaque_result(self, ex, n, on, vals, st, fr):
+                # m_children.key_comp()(a, b) / std::less<>{}(a, b)
+                q_ = n.calleeq or ''
+                if 'less' in q_ or 'key_comp' in (n.text() or ''):
+                    # which operand is the key of the entry lower_bound found (an expression over the iterator variable)?
+                    an = [a for a in n.ns('args') if a is not None][-2:]
+                    side = [any(y.k == 'ref' and y.decl in lb_vars for y in a.walk()) for a in an]
+                    if len(an) == 2 and side == [True, False]: return False          # comp(it->first, k): excluded by lower_bound
+                    if len(an) == 2 and side == [False, True]: return self._b('lb_greater', n)
+                return super().opaque_result(ex, n, on, vals, st, fr)
+            def compare(self, ex, op, l, r, n, st, fr):
+                if op in ('==', '!=') and {type(l), type(r)} == {Sym} and {l.name, r.name} == {'children.lb', 'm_children.end'}:
+                    v = self.atom('lb_end')
+                    if v is not None: return v if op == '==' else (not v)
+                return super().compare(ex, op, l, r, n, st, fr)
+        for lb_end, greater in ((True, False), (False, True), (False, False)):
+            dom = D(dict(lb_end=lb_end, lb_greater=greater, matches=True, leaf=False))
+            dom.opaque = lambda n, _d=dom: (strip_targs(n.d.get('calleeq') or '') == f'{NODE}::lookupNode') or EvDomain.opaque(_d, n)
+            missing = lb_end or greater
+            row = f'(lower_bound at end: {lb_end}, level name < found key: {greater})'
+            for P, E in run_paths(F, lk, dom):
+                if P.end in ('throw', 'noreturn'): continue
+                forks = [c for c, val, how in P.decisions if how == 'fork' and any(y.k == 'call' and y.callee_base() in ('lower_bound', 'key_comp', 'end') for y in c.walk())]
+                insd = [e for e in E if e.kind == 'call' and e.obj == 'm_children' and e.name.split('::')[-1] in ('emplace_hint', 'insert', 'emplace', 'try_emplace')]
+                desc = [e for e in E if e.kind == 'call' and strip_targs(e.name) == f'{NODE}::lookupNode']
+                if not desc: continue
+                inst = f'lookupNode row {row}: a child is created exactly when none with that name exists'
+                if forks: self.add('RT.5', None, inst, forks[0].shortloc(), f'`{forks[0].text()[:60]}` was not decided by the row')
+                elif bool(insd) == missing: self.add('RT.5', True, inst, (insd[0].site if insd else lk.shortloc()), key='RT.5|find-or-insert')
+                elif missing: self.add('RT.5', False, inst, lk.shortloc(), f'no child is inserted although none with that name exists {row}: lookupNode descends into the next greater sibling, the subscription lands on the subject of another key (notify for the intended key reaches nobody, notify for the sibling reaches both)', key='RT.5|find-or-insert')
+                else: self.add('RT.5', False, inst, insd[0].site, f'a child is inserted although one with that name exists {row}', key='RT.5|find-or-insert')
+
     # ---- C13 -----------------------------------------------------------------------------------------------------------------------------
     def shrink_rules(self):
         F = self.facts
@@ -445,6 +519,19 @@ class RouterAnalysis:
             if gname == f'{NODE}::shrink': return True
             cs = callers.get(gname, set()) - {gname}
             return bool(cs) and gname not in seen and all(only_from_shrink(c, seen + (gname,)) for c in cs)
+        # SH.2 entry: the public shrink(key) hands every key to the root node — the traversal prunes along the *prefixes* of the pattern too,
+        # so no property of the key (its length, a cached depth) makes the call a no-op
+        top = F.fn('tulz::SubjectRouter::shrink')
+        if top is not None and top.cfg is not None:
+            fw = [n for n in top.nodes() if n.k == 'call' and strip_targs(n.calleeq or '') == f'{NODE}::shrink']
+            if len(fw) == 1:
+                pos = top.cfg.position(fw[0])
+                if pos is not None and pos[0] in top.cfg.pdom.get(top.cfg.entry, ()): self.add('SH.2', True, 'SubjectRouter::shrink(key) reaches the root node on every path', fw[0].shortloc())
+                else:
+                    conds = [b_.cond for b_ in top.cfg.blocks.values() if b_.cond is not None]
+                    self.add('SH.2', None, 'SubjectRouter::shrink(key) reaches the root node on every path', fw[0].shortloc(),
+                             f'shrink(key) returns without visiting the tree when `{conds[0].text()[:60] if conds else "?"}`: whether nothing could have been removed in that case is not followed (the traversal also prunes dead prefixes of a longer pattern)')
+            elif not fw: self.add('SH.2', None, 'SubjectRouter::shrink(key) reaches the root node', top.shortloc(), 'no call of Node::shrink found in the public shrink()')
         # SH.1: erasures from m_children
         ERASE = ('erase', 'clear', 'extract', 'erase_if', 'swap', 'operator=', 'pop_back', 'pop_front')
         erasers = []
